@@ -36,7 +36,7 @@ Inductive nkind :=
 | KComment (origin : token) (indent : Z)
 | KText (origin : token)
 | KUnescape (origin : token) (indent : Z)
-| KSilent (origin : token) (indent : Z)
+| KSilent (origin : token) (indent : Z) (complete : bool)
 | KScript (origin : token)
 | KRender (origin : token) (indent : Z)
 | KChildren (origin : token)
@@ -51,13 +51,13 @@ Definition kind_origin (k : nkind) : token :=
   | KRoot _ _ => tok_root
   | KCode toks => match toks with t :: _ => t | [] => tok_root end
   | KGoht o | KDoctype o | KElement o _ _ | KNewLine o | KComment o _ | KText o | KUnescape o _
-  | KSilent o _ | KScript o | KRender o _ | KChildren o | KFilter _ o _ => o
+  | KSilent o _ _ | KScript o | KRender o _ | KChildren o | KFilter _ o _ => o
   end.
 
 Definition kind_indent (k : nkind) : Z :=
   match k with
   | KGoht _ => (-1)%Z
-  | KElement _ i _ | KComment _ i | KUnescape _ i | KSilent _ i | KRender _ i | KFilter _ _ i => i
+  | KElement _ i _ | KComment _ i | KUnescape _ i | KSilent _ i _ | KRender _ i | KFilter _ _ i => i
   | _ => 0%Z
   end.
 
@@ -209,7 +209,7 @@ Fixpoint handle_node (fuel : nat) (indent : Z) (p : parser) : presult parser :=
   | TComment => consume_node (fun tk => KComment tk indent)
   | TUnescaped => consume_node (fun tk => KUnescape tk indent)
   | TPlainText | TPreserveText | TEscapedText | TDynamicText => consume_child KText
-  | TSilentScript => consume_node (fun tk => KSilent tk indent)
+  | TSilentScript => consume_node (fun tk => KSilent tk indent false)
   | TScript => consume_child KScript
   | TRenderCommand => consume_node (fun tk => KRender tk indent)
   | TChildrenCommand => consume_child KChildren
@@ -496,11 +496,14 @@ Definition parse_step (fuel : nat) (p : parser) : presult parser :=
     | TNewLine => back_to_parent p
     | _ => handle_node fuel indent p
     end
-  | KSilent _ indent | KRender _ indent =>
+  | KSilent origin indent complete =>
     match t_typ t with
-    | TNewLine => after_next (fun _ p1 => ROk p1)
+    | TNewLine =>
+      if complete then handle_node fuel (indent + 1)%Z p
+      else after_next (fun _ p1 => ROk (set_top_kind p1 (KSilent origin indent true)))
     | _ => handle_node fuel (indent + 1)%Z p
     end
+  | KRender _ indent => handle_node fuel (indent + 1)%Z p
   | KFilter fk _ _ =>
     let is_text := match fk with
                    | FText => match t_typ t with TPlainText | TEscapedText | TPreserveText | TDynamicText => true | _ => false end
